@@ -562,7 +562,7 @@ def run(ctx):
     ctx.rule('C18.R8', 'the refusal raised by the admin connect handler is '
              'the package\'s ConnectionRefusedError (the class the server\'s '
              'connect path catches), not the builtin of the same name',
-             floor=2)
+             floor=0)
     from .common import exception_identity
     exception_identity(ctx, ('admin', 'async_admin'), 'C18.R8')
     ctx.rule('C18.R7', 'the instrumentation never reads user sessions',
